@@ -168,6 +168,8 @@ type sigCase[X sigma.Statement, W sigma.Witness, A sigma.Statement, S sigma.Stat
 	extract func(p sigma.Protocol[X, W, A, S, Z], x X, a A, es []sigma.ChallengeBytes, zs []Z) (W, error)
 	// heavy marks Paillier-sized protocols (leaf-level bit alphabet, Fiat-Shamir only in quick)
 	heavy bool
+	// unitMS is the approximate cost of one Fiat-Shamir verification in ms (static; sizes chunks and quick alphabets)
+	unitMS int
 }
 
 // renamed is the same protocol under another name (context edit "other protocol name").
@@ -202,6 +204,8 @@ func compShort(c compiler.Name) string {
 type niInst struct {
 	name     string
 	heavy    bool
+	unitMS   int
+	sigName  string // the sigma protocol's own name (the Fischlin compiler selects rho by it)
 	altNames []string
 	// compileErr reports the compiler constructor's refusal (nil = admitted)
 	compileErr func(c compiler.Name) error
@@ -237,12 +241,13 @@ func (c *sigCase[X, W, A, S, Z]) pick(sel stmtSel) X {
 }
 
 func (c *sigCase[X, W, A, S, Z]) ni() *niInst {
-	n := &niInst{name: c.name, heavy: c.heavy}
+	n := &niInst{name: c.name, heavy: c.heavy, unitMS: max(c.unitMS, 1)}
 	for _, a := range c.alts() {
 		n.altNames = append(n.altNames, a.name)
 	}
 	p0 := c.mk(stream(c.name + "/params"))
 	n.soundnessError, n.specialSoundness, n.challengeLen = p0.SoundnessError(), p0.SpecialSoundness(), p0.GetChallengeBytesLength()
+	n.sigName = string(p0.Name())
 	n.compileErr = func(cn compiler.Name) error {
 		rng := stream(c.name + "/compile")
 		_, err := compiler.Compile(cn, c.mk(rng), rng)
